@@ -172,3 +172,13 @@ Proof.
   - apply (ImpProofsU.imp_traverse_stop_ok p fuel true t _ Hf). apply NewickProofs.traverse_preorder.
   - apply (ImpProofsU.imp_traverse_stop_ok p fuel false t _ Hf). apply NewickProofs.traverse_postorder.
 Qed.
+
+(* ---- sequtil: Translate is the standard genetic code ----------------------------------------------------- *)
+From Bio.Proofs Require TranslateProofs.
+Theorem translate_exact_src fuel dst s : all_bytes s -> (length s / 3 < fuel)%nat ->
+  imp_sequtil_Translate fuel dst s
+  = match SeqSpec.std_translate s with Some l => Ret (dst ++ l) | None => Panics end.
+Proof.
+  intros Hs Hf. rewrite (ImpProofsB.imp_Translate fuel dst s Hs Hf), TranslateProofs.translate_exact.
+  destruct (SeqSpec.std_translate s); reflexivity.
+Qed.
